@@ -6,6 +6,7 @@ package main
 import (
 	"fmt"
 	"github.com/ovn-org/libovsdb/ovsdb"
+	"math/rand"
 	"sort"
 	"strings"
 
@@ -249,6 +250,16 @@ func c10Rows(r *Run, n int) {
 		for _, c := range t.Cols {
 			a[c.Name] = genValue(r.Rng, c.Type)
 			b[c.Name] = cloneValue(a[c.Name])
+			if lv, lw, ok := genLargePair(r.Rng, c.Type); ok && r.Rng.Intn(3) == 0 {
+				// larger collections that overlap: one a part of the other, or both with elements of their own
+				a[c.Name], b[c.Name] = lv, lw
+				upd[c.Name] = nativeToOvsValue(cloneValue(lw))
+				if lw.Canon() != lv.Canon() {
+					changed++
+				}
+				r.Count("row-update:large-collection")
+				continue
+			}
 			switch r.Rng.Intn(3) {
 			case 0: // repeated unchanged
 				upd[c.Name] = nativeToOvsValue(cloneValue(a[c.Name]))
@@ -361,4 +372,52 @@ func rowExact(r Row) string {
 		}
 	}
 	return strings.Join(parts, ";")
+}
+
+// genLargePair: two sets (or maps) of up to 16 elements over a universe of 24 that share elements: a inside b,
+// b inside a, or overlapping
+func genLargePair(rng *rand.Rand, ct ColType) (*Value, *Value, bool) {
+	if (ct.Kind != "set" && ct.Kind != "map") || ct.Max != -1 || (ct.Key != "integer" && ct.Key != "string") {
+		return nil, nil, false
+	}
+	if ct.Kind == "map" && ct.Val != "integer" && ct.Val != "string" {
+		return nil, nil, false
+	}
+	atom := func(t string, i int) Atom {
+		if t == "integer" {
+			return AI(int64(100 + i))
+		}
+		return AS(fmt.Sprintf("e%02d", i))
+	}
+	perm := rng.Perm(24)
+	na, nb := 1+rng.Intn(8), 9+rng.Intn(8)
+	var ia, ib []int
+	switch rng.Intn(3) {
+	case 0: // a inside b
+		ib = perm[:nb]
+		ia = ib[:na]
+	case 1: // overlapping
+		ia = perm[:na+4]
+		ib = perm[2 : 2+nb]
+	default: // b inside a (a large too)
+		ia = perm[:nb+3]
+		ib = ia[1 : 1+nb]
+	}
+	mk := func(ix []int, salt int) *Value {
+		ix = append([]int{}, ix...)
+		rng.Shuffle(len(ix), func(i, j int) { ix[i], ix[j] = ix[j], ix[i] })
+		if ct.Kind == "set" {
+			v := &Value{K: 'S'}
+			for _, i := range ix {
+				v.S = append(v.S, atom(ct.Key, i))
+			}
+			return v
+		}
+		v := &Value{K: 'M'}
+		for _, i := range ix {
+			v.M = append(v.M, [2]Atom{atom(ct.Key, i), atom(ct.Val, (i*7+salt*(i%3))%24)})
+		}
+		return v
+	}
+	return mk(ia, 0), mk(ib, 1), true
 }
